@@ -16,7 +16,7 @@ import (
 	pbredis "github.com/samaritan-proxy/samaritan/pb/config/protocol/redis"
 	"github.com/samaritan-proxy/samaritan/pb/config/service"
 	"github.com/samaritan-proxy/samaritan/proc"
-	_ "github.com/samaritan-proxy/samaritan/proc/redis" // registers the Redis builder
+	"github.com/samaritan-proxy/samaritan/proc/redis" // also registers the Redis builder
 
 	"verifharness/hx"
 )
@@ -41,7 +41,7 @@ func init() {
 
 func (*c09) Rule() string {
 	return "life cycles of real TCP and Redis processors: Stop and StopListen placed before the bind, during bind retries (port occupied), between bind and publication, right after start, with active connections, " +
-		"with requests in flight to responsive, silent and closed backends; connection limits 0..3 with arrivals over the limit; bursts of 4..31 clients connecting at the same moment against limits 1..4 (exactly the limit is served). Non-trivial = Stop/StopListen at a parked point, or with an open connection, or a non-responsive backend; distinct by op line"
+		"with requests in flight to responsive, silent and closed backends; connection limits 0..3 with arrivals over the limit; bursts of 4..31 clients connecting at the same moment against limits 1..4 (exactly the limit is served); Stop of a Redis service while a backend connection's read loop is parked between the quit check of MakeRequestToHost and createClient. Non-trivial = Stop/StopListen at a parked point, or with an open connection, or a non-responsive backend; distinct by op line"
 }
 func (c *c09) Exec(op string) string { return c.iso.Exec(op) }
 func (c09child) Rule() string        { return "" }
@@ -355,10 +355,184 @@ func (c c09child) Exec(op string) string {
 	if len(f) >= 4 && f[0] == "c09.burst" {
 		return recoverStr(func() string { return c.burst(f[1:]) })
 	}
+	if len(f) == 2 && f[0] == "c09.redir" {
+		return recoverStr(func() string { return c.redir(f[1]) })
+	}
 	if len(f) < 2 || f[0] != "c09.life" {
 		return "bad-op"
 	}
 	return recoverStr(func() string { return c.life(f[1:]) })
+}
+
+// c09.redir <k|d|n>   a Redis processor in front of node A, which answers GET with MOVED to node B (no connection to B yet). The read
+// loop of A's connection is parked right after the quit check of MakeRequestToHost (pause point upstream.request.checked reached
+// from loopRead).  k: Stop is called while it is parked, 150 ms later it is released;  d: the same with node B silent (its accept
+// is delayed by 200 ms);  n: it is released first, then Stop.
+//   -> stop=<ok|hangs> up=<closed>/<accepted> leaked=<goroutines>   (measured up to 2.5 s after Stop was called)
+func (c09child) redir(mode string) string {
+	if mode != "k" && mode != "d" && mode != "n" {
+		return "bad-op"
+	}
+	baseG := runtime.NumGoroutine()
+	var mu sync.Mutex
+	accepted, closed := 0, 0
+	serveNode := func(ln net.Listener, reply func(cmd string) string, delay time.Duration) {
+		for {
+			c, err := ln.Accept()
+			if err != nil {
+				return
+			}
+			mu.Lock()
+			accepted++
+			mu.Unlock()
+			go func() {
+				defer func() {
+					c.Close()
+					mu.Lock()
+					closed++
+					mu.Unlock()
+				}()
+				time.Sleep(delay)
+				dec := redis.VerifNewDecoder(c, 4096)
+				for {
+					v, err := dec.Decode()
+					if err != nil {
+						return
+					}
+					cmd := ""
+					if len(v.Array) > 0 {
+						cmd = strings.ToLower(string(v.Array[0].Text))
+					}
+					if _, err := c.Write([]byte(reply(cmd))); err != nil {
+						return
+					}
+				}
+			}()
+		}
+	}
+	lnA, err := net.Listen("tcp", "127.0.0.1:0")
+	if err != nil {
+		return "sockerr"
+	}
+	defer lnA.Close()
+	lnB, err := net.Listen("tcp", "127.0.0.1:0")
+	if err != nil {
+		return "sockerr"
+	}
+	defer lnB.Close()
+	addrB := lnB.Addr().String()
+	go serveNode(lnA, func(cmd string) string {
+		if cmd == "get" {
+			return "-MOVED 1 " + addrB + "\r\n"
+		}
+		return "-ERR not now\r\n"
+	}, 0)
+	bDelay := time.Duration(0)
+	if mode == "d" {
+		bDelay = 200 * time.Millisecond
+	}
+	go serveNode(lnB, func(cmd string) string {
+		if cmd == "get" {
+			return "$1\r\nv\r\n"
+		}
+		return "-ERR not now\r\n"
+	}, bDelay)
+	reached, release := make(chan struct{}), make(chan struct{})
+	var once sync.Once
+	redis.VerifSetPause(func(point string, obj interface{}) {
+		if point != "upstream.request.checked" {
+			return
+		}
+		var pcs [32]uintptr
+		n := runtime.Callers(2, pcs[:])
+		fr := runtime.CallersFrames(pcs[:n])
+		for {
+			f, more := fr.Next()
+			if strings.HasSuffix(f.Function, "(*client).loopRead") {
+				parked := false
+				once.Do(func() { parked = true; close(reached) })
+				if parked {
+					<-release
+				}
+				return
+			}
+			if !more {
+				return
+			}
+		}
+	})
+	defer redis.VerifSetPause(nil)
+	ct := time.Second
+	cfg := &service.Config{
+		Listener:        &service.Listener{Address: &common.Address{Ip: "127.0.0.1", Port: 0}},
+		ConnectTimeout:  &ct,
+		Protocol:        protocol.Redis,
+		ProtocolOptions: &service.Config_RedisOption{RedisOption: &protocol.RedisOption{ReadStrategy: pbredis.ReadStrategy_MASTER}},
+	}
+	c09seq++
+	p, err := proc.New(fmt.Sprintf("verif-c09r-%d", c09seq), cfg, []*host.Host{host.New(lnA.Addr().String())})
+	if err != nil {
+		return "procerr"
+	}
+	defer hx.DropScopes("service." + p.Name() + ".")
+	if err := p.Start(); err != nil {
+		return "procerr"
+	}
+	for i := 0; i < 400 && p.Address() == ""; i++ {
+		time.Sleep(time.Millisecond)
+	}
+	cl, err := hx.DialClient(p.Address())
+	if err != nil {
+		p.Stop()
+		return "sockerr"
+	}
+	defer cl.C.Close()
+	if err := cl.Write([]byte("get"), []byte("k")); err != nil {
+		p.Stop()
+		return "sockerr"
+	}
+	select {
+	case <-reached:
+	case <-time.After(3 * time.Second):
+		close(release)
+		p.Stop()
+		return "not-parked"
+	}
+	stopDone := make(chan struct{})
+	stop := func() { go func() { p.Stop(); close(stopDone) }() }
+	if mode == "n" {
+		close(release)
+		time.Sleep(50 * time.Millisecond)
+		stop()
+	} else {
+		stop()
+		time.Sleep(150 * time.Millisecond)
+		close(release)
+	}
+	res := "hangs"
+	select {
+	case <-stopDone:
+		res = "ok"
+	case <-time.After(2500 * time.Millisecond):
+	}
+	cl.C.Close()
+	leaked := 0
+	for i := 0; i < 100; i++ {
+		mu.Lock()
+		a, c := accepted, closed
+		mu.Unlock()
+		leaked = runtime.NumGoroutine() - baseG - 2 // the two accept loops of this op
+		if a == c && leaked <= 0 {
+			break
+		}
+		time.Sleep(10 * time.Millisecond)
+	}
+	if leaked < 0 {
+		leaked = 0
+	}
+	mu.Lock()
+	defer mu.Unlock()
+	return fmt.Sprintf("stop=%s up=%d/%d leaked=%d", res, closed, accepted, leaked)
 }
 
 // c09.burst <limit> <clients> <rounds>   a real TCP processor with a connection limit in front of a backend that greets and
@@ -461,6 +635,12 @@ func (c *c09) Gen(r *hx.Run) {
 			for _, lim := range []int{1, 2} {
 				r.Do(fmt.Sprintf("c09.life %s r %d %s", proto, lim, sc), true, "limit")
 			}
+		}
+	}
+	// Stop while a backend connection's read loop follows a redirection (F-09h)
+	for i := 0; i < r.N(2, 10); i++ {
+		for _, m := range []string{"k", "n", "d"} {
+			r.Do("c09.redir "+m, true, "redir")
 		}
 	}
 	// bursts: many clients at the same moment against a connection limit
